@@ -46,16 +46,22 @@ def check_exact_refusal(ctx, A, config, RULE_NAME):
         F = ('load', ('fld', ('deref', ('param', 1)), 'Bump.current_chunk_footer'), 0)
         fin = arena.loadf(F, 'ptr')
         data = arena.loadf(F, 'data')
+        # blocks that make the value under construction a failure (`None` / `Err(..)` assigned to any local): an arm that
+        # evaluates to None and is tested by a later `?` refuses just like an early `return None`
+        none_blocks = set()
+        for bi in g.reachable:
+            for s_ in b['blocks'][bi]['stmts']:
+                if s_['k'] == 'assign' and not s_['place']['proj'] and s_['rv']['k'] == 'agg' and s_['rv'].get('variant', '').split('#')[0] in ('None', 'Err'):
+                    none_blocks.add(bi)
         for e in r.events:
             if e.kind != 'branch' or len(e.stack) != 1:
                 continue
             t = e.extra['target']
             reach = g.reach([t])
-            if (reach & store_blocks) or not (reach & fb):
+            if (g.reach([t], avoid_blocks=none_blocks) & store_blocks) or not (reach & fb):
                 continue
             # refusal edge
-            src_reach = g.reach([e.block])
-            if not (src_reach & store_blocks):
+            if not (g.reach([e.block], avoid_blocks=none_blocks) & store_blocks):
                 continue     # already inside a refusal region
             n6 += 1
             added = e.extra['added']
